@@ -4,6 +4,7 @@ package c03
 import (
 	"encoding/json"
 	"fmt"
+	"os"
 	"path"
 	"sort"
 	"strings"
@@ -268,6 +269,63 @@ func reachableKeys(s *subject) (string, string) {
 type machine struct {
 	s          *subject
 	nontrivial bool
+	slots      [2]hackpadfs.File // handles kept open across steps (stale-handle histories)
+	slotPath   [2]string
+}
+
+func (m *machine) openPaths() []string {
+	var out []string
+	for i, f := range m.slots {
+		if f != nil && m.slotPath[i] != "." {
+			out = append(out, m.slotPath[i])
+		}
+	}
+	return out
+}
+
+// handleStep performs a handle-level step (kinds starting with "h"); the handle lives in slot op.N.
+func (m *machine) handleStep(op ops.Op) ops.Res {
+	var res ops.Res
+	pan, hung := vf.Guard(func() {
+		f := m.slots[op.N%2]
+		switch op.K {
+		case "hopen":
+			if f != nil {
+				_ = f.Close()
+			}
+			nf, err := hackpadfs.OpenFile(m.s.fs, op.P, op.Flag, 0o644)
+			res.Err = err
+			if err != nil {
+				nf = nil
+			}
+			m.slots[op.N%2] = nf
+			m.slotPath[op.N%2] = op.P
+		case "hwrite":
+			if f != nil {
+				_, res.Err = hackpadfs.WriteFile(f, op.Data)
+			}
+		case "htrunc":
+			if f != nil {
+				res.Err = hackpadfs.TruncateFile(f, 1)
+			}
+		case "hchmod":
+			if f != nil {
+				res.Err = hackpadfs.ChmodFile(f, 0o600)
+			}
+		case "hclose":
+			if f != nil {
+				res.Err = f.Close()
+				m.slots[op.N%2] = nil
+			}
+		}
+	})
+	if hung {
+		return ops.Res{Hung: true}
+	}
+	if pan != "" {
+		return ops.Res{Panic: pan}
+	}
+	return res
 }
 
 func (m *machine) tree() gen.Tree {
@@ -284,7 +342,12 @@ func (m *machine) tree() gen.Tree {
 
 func (m *machine) step(op ops.Op, situation string) (string, string) {
 	base := fmt.Sprintf("C03/%s %s", m.s.kind, situation)
-	res := ops.ApplyFS(m.s.fs, op)
+	var res ops.Res
+	if strings.HasPrefix(op.K, "h") {
+		res = m.handleStep(op)
+	} else {
+		res = ops.ApplyFS(m.s.fs, op)
+	}
 	if res.Hung {
 		return base + ":I5-hang", fmt.Sprintf("%v did not return", op)
 	}
@@ -309,6 +372,44 @@ func run(t *testing.T, kind string) {
 			"step": func(rt *rapid.T) {
 				tr := m.tree()
 				op := gen.Op(rt, tr, gen.Names, 4, m.s.rootMut)
+				if rapid.IntRange(0, 4).Draw(rt, "handlestep") == 0 {
+					// handles that stay open across later namespace operations (remove / rename / re-create of their path)
+					op = ops.Op{K: rapid.SampledFrom([]string{"hopen", "hopen", "hwrite", "hwrite", "htrunc", "hchmod", "hclose"}).Draw(rt, "hk"), N: rapid.IntRange(0, 1).Draw(rt, "slot")}
+					switch op.K {
+					case "hopen":
+						op.P = gen.Path(rt, tr, gen.Names, 4, true, "hp")
+						op.Flag = rapid.SampledFrom([]int{os.O_RDWR, os.O_WRONLY, os.O_RDWR | os.O_CREATE, os.O_WRONLY | os.O_APPEND | os.O_CREATE}).Draw(rt, "hflag")
+					case "hwrite":
+						op.Data = gen.Payload(rt, 4, "hdata")
+					}
+					rec.Class("handle-step")
+				} else if hp := m.openPaths(); len(hp) > 0 && rapid.IntRange(0, 2).Draw(rt, "targeted") == 0 {
+					// aim namespace operations at the path of a handle that is still open (and at its parent):
+					// unlink it, remove or replace its directory, re-create either as the other kind, then use the handle
+					p := rapid.SampledFrom(hp).Draw(rt, "hpath")
+					target := rapid.SampledFrom([]string{p, path.Dir(p)}).Draw(rt, "target")
+					other := gen.Random(rt, gen.Names, 2, false, "other")
+					switch rapid.IntRange(0, 6).Draw(rt, "tk") {
+					case 0:
+						op = ops.Op{K: "remove", P: target}
+					case 1:
+						op = ops.Op{K: "removeall", P: target}
+					case 2:
+						op = ops.Op{K: "rename", P: target, P2: other}
+					case 3:
+						op = ops.Op{K: "writefile", P: target, Data: []byte("n"), Perm: 0o644}
+					case 4:
+						op = ops.Op{K: "mkdir", P: target, Perm: 0o755}
+					case 5:
+						op = ops.Op{K: "rename", P: other, P2: target}
+					default:
+						op = ops.Op{K: rapid.SampledFrom([]string{"hwrite", "htrunc", "hchmod"}).Draw(rt, "huse"), N: rapid.IntRange(0, 1).Draw(rt, "slot"), Data: []byte("w")}
+					}
+					if target == "." && (op.K == "remove" || op.K == "removeall" || op.K == "rename") && !m.s.rootMut {
+						op = ops.Op{K: "stat", P: "."}
+					}
+					rec.Class("targeted-at-open-handle")
+				}
 				s := sit.Of(op, tr)
 				if k := knownSig(m.s, op); k != "" {
 					rec.Excluded(k)
